@@ -101,6 +101,16 @@ def run(ctx):
             ctx.instance("C01.3", "%s: page-writing call %s" % (fn, site_key(c)))
         for c in msites:
             ctx.instance("C01.3", "%s: must-sync call %s" % (fn, site_key(c)))
+        # the page file can already be dirty when the function is entered (a commit returns with node-table pages
+        # written and not synced): every path from entry to a sink must pass a must-sync call
+        if M.COMMIT in PD.D:
+            mblocks = {c.bb for c in msites}
+            seen = b.reachable([0], avoid=mblocks | PD.fail(b))
+            for c, what in sinks:
+                ctx.instance("C01.3", "%s: entry (pages dirty from earlier commits) -> %s" % (fn, what))
+                ctx.oblige(c.bb not in seen or 0 in mblocks, "C01.3", "%s:entry-dirty->%s" % (fn, what),
+                           "pages written by earlier commits (node table, index pages) can still be unsynced when this record lets recovery "
+                           "skip the WAL that could rebuild them: no Pager sync on some path from the function's entry", c.loc())
         bad = PD.dirty_before(b, [c.bb for c, _ in sinks])
         badset = {c.bb for c in bad}
         for c in dsites:
